@@ -10,11 +10,11 @@ TIERS = {'quick': 5000, 'thorough': 200000}
 RULE = ('seeded transfers in which the device rejects: pull FAIL immediately / mid-transfer / instead of DONE; push (single- and multi-WRITE) FAIL at SEND, '
         'at the n-th DATA, at DONE, with the FAIL WRTE placed before or after the device OKAY it races with (and delayed so that it lands between later '
         'OKAYs); the device then drains to DONE, acknowledges every host WRITE and closes, as adbd does; reasons empty / long / non-UTF-8, optionally cut '
-        'across WRTEs; plus well-formed but invalid status records (known ids). non-trivial = the FAIL raced an OKAY (arrived while the host was waiting '
+        'across WRTEs; plus well-formed but invalid status records (known ids), and pushes whose final FAIL status is followed by the death of the link (the failure already reported must still be the one raised). non-trivial = the FAIL raced an OKAY (arrived while the host was waiting '
         'for an OKAY) or a multi-WRITE transfer failed; distinct = event-log digests')
 ASSUMPTIONS = ['an unknown sync id word is outside "sync status record" (raises KeyError today; noted, not asserted)',
                'no time bound is attached to the no-timeout clause: a long push legitimately keeps sending after an early FAIL']
-EXPECT_PROBES = {'all': ['fail_before_okay', 'push_fail_sent', 'recv_fail_mid', 'c10_multi_wrte_fail', 'c10_empty_reason', 'c10_bad_record']}
+EXPECT_PROBES = {'all': ['fail_before_okay', 'push_fail_sent', 'recv_fail_mid', 'c10_multi_wrte_fail', 'c10_empty_reason', 'c10_bad_record', 'c10_link_drop_after_fail']}
 OWN = ('wrong-result', 'unexpected-exception', 'timeout-instead-of-result', 'missing-exception', 'wrong-exception', 'reason-missing', 'hang', 'no-termination')
 
 REASONS = [b'', b'Permission denied', b'couldn\'t create file: Read-only file system', b'x' * 300, b'\xff\xfe bad \xc3', 'nö spáce'.encode('utf8'), b'No space left on device']
@@ -25,6 +25,7 @@ def generate(seed, tier):
     d = S.gen_device(g)
     d['cut_plans'] = [{'policy': g.pick(['whole', 'whole', 'straddle', 'random', 'tiny']), 'seed': g.int(0, 1 << 30)} for _ in range(g.int(1, 2))]
     ops = []
+    link_drop = False
     reason = g.pick(REASONS)
     c = g.int(0, 9)
     if c <= 2:
@@ -40,6 +41,12 @@ def generate(seed, tier):
         if g.chance(0.4):
             d['push_fail']['delay'] = g.pick([0.0005, 0.005, 0.05])
             d['latency'] = {'mode': 'small', 'max': g.pick([0.001, 0.02])}
+        if g.chance(0.2):
+            # the device reports the failure as its final status and the link dies right afterwards: push has the FAIL and must report it
+            d['push_fail']['at'] = 'done'
+            d['push_fail'].pop('delay', None)
+            d['fail_before_okay'] = False
+            link_drop = True
         ops.append({'op': 'push', 'src': g.pick(['bytesio', 'file']), 'content': {'seed': g.int(0, 1 << 30), 'size': size, 'alpha': 'bin'}, 'path': '/system/ro%d' % g.int(0, 99),
                     'mtime': g.pick([0, 7]), 'cb': g.pick([None, None, 'count'])})
     else:
@@ -59,6 +66,9 @@ def generate(seed, tier):
         name = S.add_cmd(g, d, 500)
         ops.append({'op': 'shell', 'cmd': name, 'decode': False})
     cfg = S.gen_config(g, 30000)
+    if link_drop:
+        cfg['drop_link_after_fail'] = True
+        ops = ops[:1]
     scn = {'api': g.pick(['sync', 'async']), 'transport': 'mem', 'device': d, 'config': cfg, 'actors': [[{'op': 'connect'}] + [S.timeouts(g, o) for o in ops]], 'object': {'banner': 'simhost'}}
     return {'seed': seed, 'scn': scn}
 
@@ -81,6 +91,8 @@ def evaluate(case, tapes=None):
         pr['c10_empty_reason'] = 1
     if d.get('bad_record'):
         pr['c10_bad_record'] = 1
+    if scn['config'].get('drop_link_after_fail'):
+        pr['c10_link_drop_after_fail'] = 1
     out['violations'] = [p for p in probs if p[0] in OWN]
     out['nontrivial'] = bool(run.probes.get('fail_before_okay') or multi_fail or run.probes.get('recv_fail_mid'))
     out['digest'] = run.digest()
